@@ -4,7 +4,7 @@ import ast
 import z3
 
 from . import loader
-from .core import (REG, RefV, ArrV, Ty, VerifError, PathEnd, T_INT, T_FLOAT, T_BOOL, T_ANY, parse_type, sort_of, sort_key,
+from .core import (REG, RefV, ArrV, StructV, Ty, VerifError, PathEnd, T_INT, T_FLOAT, T_BOOL, T_ANY, parse_type, sort_of, sort_key,
                    type_of_value)
 from .values import (FuncV, BuiltinV, ClassV, ModuleV, SuperV, LambdaV, ExcV, RangeV, EnumV, ZipV, GenV, Frame,
                      ReturnSig, RaiseSig)
@@ -129,13 +129,17 @@ class CallMixin(object):
 
     def call_pure(self, f, args, kwargs):
         body = loader.strip_docstring(f.node.body)
-        if len(body) != 1 or not isinstance(body[0], ast.Return):
+        ok = body and isinstance(body[-1], ast.Return) and all(
+            isinstance(st, ast.Assign) and len(st.targets) == 1 and isinstance(st.targets[0], ast.Name) for st in body[:-1])
+        if not ok:
             raise VerifError("spec expression calls non-trivial function %s" % f.qualname)
         env = self.bind_args(f, args, kwargs)
         fr = Frame(f.module, f.owner, f.dyn_cls or f.owner, env.get("self"), env, fn=f.node)
         self.frames.append(fr)
         try:
-            return self.ev(body[0].value, True)
+            for st in body[:-1]:     # straight-line pure definitions
+                fr.env[st.targets[0].id] = self.ev(st.value, True)
+            return self.ev(body[-1].value, True)
         finally:
             self.frames.pop()
 
@@ -218,7 +222,8 @@ class CallMixin(object):
     def fresh_result_value(self, rty):
         ctx = self.ctx
         if rty.kind == "tuple":
-            return tuple(self.fresh_result_value(a) for a in rty.args)
+            items = [self.fresh_result_value(a) for a in rty.args]
+            return StructV(items, rty) if rty.name else tuple(items)
         v = ctx.fresh_of_type("ret", rty)
         if isinstance(v, RefV):
             ctx.assume_ref_typed(v)
